@@ -403,4 +403,417 @@ theorem aroundPass_quiet (f : Bytes → Bool) (clk : Clock) (it : It)
       (fun _ => ⟨rfl, rfl, rfl, rfl, Nat.le_refl _, fun j h1 h2 => by simp only at h2; omega⟩)
     exact key hq hf
 
+/-! ### minimize-balanced: what a quiet pass at chunk size 1 has proposed -/
+
+theorem try_quiet (it : It) (o : Oracle) (c : Testcase) (mk : Resp → Att)
+    (h : ((it.try o c mk).1 == Resp.accepted) = false) :
+    (it.try o c mk).2.best = it.best ∧ c.content ∈ (it.try o c mk).2.tried ∧
+    ∀ x ∈ it.tried, x ∈ (it.try o c mk).2.tried := by
+  rcases try_spec it o c mk with ⟨-, hin, hb, -, ht⟩ | ⟨hr, -, -, -, -, -⟩ | ⟨-, -, -, hb, -, ht⟩
+  · exact ⟨hb, by rw [ht]; simpa using hin, fun x hx => by rw [ht]; exact hx⟩
+  · rw [hr] at h; exact absurd h (by decide)
+  · exact ⟨hb, by rw [ht]; exact List.mem_cons_self, fun x hx => by rw [ht]; exact List.mem_cons_of_mem _ hx⟩
+
+theorem countFrom_replicate (m i a b : Nat) :
+    countFrom (List.replicate m true) i a b = min b (i + m) - max a i := by
+  induction m generalizing i with
+  | zero => simp only [List.replicate_zero, countFrom]; omega
+  | succ m ih =>
+    simp only [List.replicate_succ, countFrom, Bool.and_true, ih (i + 1)]
+    by_cases h1 : a ≤ i <;> by_cases h2 : i < b <;> simp [h1, h2] <;> omega
+
+theorem countS_replicate (n a b : Nat) (hab : a ≤ b) (hb : b ≤ n) :
+    countS (List.replicate n true) a b = b - a := by
+  unfold countS
+  rw [countFrom_replicate]
+  omega
+
+theorem findRhs_le (summary : List Bool) (curly square normal : List Int) (l : List Bool) (rhs : Nat)
+    (bal : Int × Int × Int) : (findRhs summary curly square normal l rhs bal).1 ≤ rhs + l.length := by
+  induction l generalizing rhs bal with
+  | nil => simp [findRhs]
+  | cons x xs ih =>
+    unfold findRhs
+    simp only [List.length_cons]
+    split
+    · have := ih (rhs + 1) bal; omega
+    · split
+      · omega
+      · split
+        · omega
+        · have := ih (rhs + 1) (bal.1 + curly.getD (rhs + 1) 0, bal.2.1 + square.getD (rhs + 1) 0, bal.2.2 + normal.getD (rhs + 1) 0)
+          omega
+
+/-- the three lists of bracket balances `try_removing_chunks` computes at chunk size 1 -/
+def balLists (t : Testcase) : List Int × List Int × List Int :=
+  ((List.range t.len).map (fun i => countDiff t.parts i 0x7B 0x7D),
+   (List.range t.len).map (fun i => countDiff t.parts i 0x5B 0x5D),
+   (List.range t.len).map (fun i => countDiff t.parts i 0x28 0x29))
+
+/-- the partner search of the code for atom `j` of `t` when every chunk survives -/
+def partnerOf (t : Testcase) (j : Nat) : Nat × (Int × Int × Int) :=
+  findRhs (List.replicate t.len true) (balLists t).1 (balLists t).2.1 (balLists t).2.2
+    ((List.replicate t.len true).drop (j + 1)) j (balOf (balLists t).1 (balLists t).2.1 (balLists t).2.2 j)
+
+/-- what the fixpoint of minimize-balanced says about atom `j`: a balanced atom is deleted alone,
+an unbalanced atom together with the partner the search finds (none: nothing is claimed) -/
+def balTarget (t : Testcase) (j : Nat) : Option Testcase :=
+  if balZero (balOf (balLists t).1 (balLists t).2.1 (balLists t).2.2 j) then
+    some (t.rmslice (j : Int) ((j : Int) + 1))
+  else if balZero (partnerOf t j).2 then
+    some ((t.rmslice ((partnerOf t j).1 : Int) (((partnerOf t j).1 : Int) + 1)).rmslice (j : Int) ((j : Int) + 1))
+  else none
+
+theorem balCand1_one (st : BalSt) (it : It) (hg : st.chunkStart < it.best.len) :
+    balCand1 1 st it = it.best.rmslice (st.chunkStart : Int) ((st.chunkStart : Int) + 1) := by
+  unfold balCand1
+  have e1 : ((min it.best.len (st.chunkStart + 1) : Nat) : Int) = (st.chunkStart : Int) + 1 := by omega
+  rw [e1]
+
+theorem balCand2_one (st : BalSt) (it : It) (rhs : Nat) (hs : st.summary = List.replicate it.best.len true)
+    (hl : st.chunkStart = st.lhs) (h1 : st.lhs ≤ rhs) (h2 : rhs < it.best.len) :
+    balCand2 1 st it rhs
+      = (it.best.rmslice (rhs : Int) ((rhs : Int) + 1)).rmslice (st.lhs : Int) ((st.lhs : Int) + 1) := by
+  unfold balCand2
+  simp only
+  rw [hs, countS_replicate _ _ _ h1 (by omega), hl]
+  have e0 : st.lhs + 1 * (rhs - st.lhs) = rhs := by omega
+  rw [e0]
+  have e1 : ((min it.best.len rhs : Nat) : Int) = (rhs : Int) := by omega
+  have e2 : ((min it.best.len (min it.best.len rhs + 1) : Nat) : Int) = (rhs : Int) + 1 := by omega
+  have e3 : ((min it.best.len (st.lhs + 1) : Nat) : Int) = (st.lhs : Int) + 1 := by omega
+  rw [e1, e2, e3]
+
+/-- A pass of minimize-balanced at chunk size 1 under a deterministic test that accepts nothing and
+raises no flag leaves the best testcase alone and has proposed — tested now, or found among the
+contents tested earlier — the deletion `balTarget best j` for every atom `j`. -/
+theorem balPass_quiet (f : Bytes → Bool) (clk : Clock) (it : It)
+    (hq : (balPass (fun _ x => f x) clk none 1 it).2 = false)
+    (hf : (balPass (fun _ x => f x) clk none 1 it).1.outOfFuel = false)
+    (he : (balPass (fun _ x => f x) clk none 1 it).1.internalError = false) :
+    (balPass (fun _ x => f x) clk none 1 it).1.best = it.best ∧
+    (2 ≤ it.best.len → ∀ j, j < it.best.len → ∀ c, balTarget it.best j = some c →
+      c.content ∈ (balPass (fun _ x => f x) clk none 1 it).1.tried) := by
+  unfold balPass at hq hf he ⊢
+  simp only [divUp_one] at hq hf he ⊢
+  by_cases hn : it.best.len < 2
+  · simp only [hn, if_true]
+    exact ⟨trivial, fun h2 => by omega⟩
+  · simp only [hn, if_false] at hq hf he ⊢
+    unfold balLoop at hq hf he ⊢
+    -- the quiet-step bookkeeping shared by all three kinds of iteration
+    have shiftP : ∀ (st st' : BalSt) (it' : It),
+        st.summary = List.replicate it.best.len true → st.chunkStart = st.lhs → balShift 1 st = some st' →
+        st'.summary = List.replicate it.best.len true ∧ st'.chunkStart = st'.lhs ∧ st'.lhs = st.lhs + 1 := by
+      intro st st' it' p2 p3 hsh
+      unfold balShift at hsh
+      rw [p2, indexS_replicate] at hsh
+      split at hsh
+      · rename_i l hl
+        simp only [Option.some.injEq] at hsh
+        subst hsh
+        split at hl
+        · simp only [Option.some.injEq] at hl
+          exact ⟨rfl, by simp only; omega, by simp only; omega⟩
+        · exact absurd hl (by simp)
+      · exact absurd hsh (by simp)
+    have shiftNone : ∀ (st : BalSt), st.summary = List.replicate it.best.len true → balShift 1 st = none →
+        it.best.len ≤ st.lhs + 1 := by
+      intro st p2 hsh
+      unfold balShift at hsh
+      rw [p2, indexS_replicate] at hsh
+      split at hsh
+      · exact absurd hsh (by simp)
+      · rename_i hnn
+        split at hnn
+        · exact absurd hnn (by simp)
+        · omega
+    have key := pLoop_induct_exits
+      (balDef 1 it.best.len (balLists it.best).1 (balLists it.best).2.1 (balLists it.best).2.2) (fun _ x => f x) clk none
+      (fun st it' any => any = false →
+        it'.best = it.best ∧ st.summary = List.replicate it.best.len true ∧ st.chunkStart = st.lhs ∧
+        ∀ j, j < st.lhs → ∀ c, balTarget it.best j = some c → c.content ∈ it'.tried)
+      (fun it' any => any = false → it'.outOfFuel = false → it'.internalError = false →
+        it'.best = it.best ∧ ∀ j, j < it.best.len → ∀ c, balTarget it.best j = some c → c.content ∈ it'.tried)
+      (fun st it' any hP hg ha _ _ => by
+        obtain ⟨p1, -, p3, p4⟩ := hP ha
+        have hg' : ¬ (st.chunkStart < it'.best.len) := by simpa [balDef] using hg
+        rw [p1] at hg'
+        exact ⟨p1, fun j hj => p4 j (by omega)⟩)
+      (fun st it' any _ _ hd => by simp [deadlinePassed] at hd)
+      (fun st it' any _ _ hfu => by simp at hfu)
+      (fun st it' any _ _ _ _ _ hie => by simp at hie)
+      (fun st it' any hP hg _ hact => by
+        -- no partner: nothing is claimed for this atom
+        have hnone : any = false → balTarget it.best st.lhs = none := by
+          intro ha
+          obtain ⟨p1, p2, p3, -⟩ := hP ha
+          simp only [balDef, balAct] at hact
+          split at hact
+          · exact absurd hact (by simp)
+          · split at hact
+            · exact absurd hact (by simp)
+            · rename_i hz
+              split at hact
+              · rename_i hr
+                unfold balTarget
+                rw [if_neg hz]
+                have : partnerOf it.best st.lhs = balRhs (balLists it.best).1 (balLists it.best).2.1 (balLists it.best).2.2 st := by
+                  unfold partnerOf balRhs; rw [p2]
+                rw [this, if_neg (by simpa using hr)]
+              · exact absurd hact (by simp)
+        refine ⟨?_, ?_⟩
+        · intro hnx ha _ _
+          obtain ⟨p1, p2, p3, p4⟩ := hP ha
+          have := shiftNone st p2 (by simpa [balDef, balNext] using hnx)
+          refine ⟨p1, fun j hj c hc => ?_⟩
+          rcases Nat.lt_or_ge j st.lhs with hlt | hge
+          · exact p4 j hlt c hc
+          · have : j = st.lhs := by omega
+            subst this
+            rw [hnone ha] at hc; exact absurd hc (by simp)
+        · intro st' hnx ha
+          obtain ⟨p1, p2, p3, p4⟩ := hP ha
+          obtain ⟨s1, s2, s3⟩ := shiftP st st' it' p2 p3 (by simpa [balDef, balNext] using hnx)
+          refine ⟨p1, s1, s2, fun j hj c hc => ?_⟩
+          rcases Nat.lt_or_ge j st.lhs with hlt | hge
+          · exact p4 j hlt c hc
+          · have : j = st.lhs := by omega
+            subst this
+            rw [hnone ha] at hc; exact absurd hc (by simp))
+      (fun st it' any c mk hP hg _ hact => by
+        have hg' : st.chunkStart < it'.best.len := by simpa [balDef] using hg
+        -- the proposal is the target of atom `lhs`
+        have htarget : any = false → balTarget it.best st.lhs = some c := by
+          intro ha
+          obtain ⟨p1, p2, p3, -⟩ := hP ha
+          simp only [balDef, balAct] at hact
+          split at hact
+          · exact absurd hact (by simp)
+          · split at hact
+            · rename_i hz
+              simp only [PAct.propose.injEq] at hact
+              obtain ⟨rfl, -⟩ := hact
+              unfold balTarget
+              rw [if_pos hz, balCand1_one st it' hg', p1, p3]
+            · rename_i hz
+              split at hact
+              · exact absurd hact (by simp)
+              · rename_i hr
+                simp only [PAct.propose.injEq] at hact
+                obtain ⟨rfl, -⟩ := hact
+                have hpe : partnerOf it.best st.lhs = balRhs (balLists it.best).1 (balLists it.best).2.1 (balLists it.best).2.2 st := by
+                  unfold partnerOf balRhs; rw [p2]
+                have hge := findRhs_ge st.summary (balLists it.best).1 (balLists it.best).2.1 (balLists it.best).2.2
+                  (st.summary.drop (st.lhs + 1)) st.lhs (balOf (balLists it.best).1 (balLists it.best).2.1 (balLists it.best).2.2 st.lhs)
+                have hle := findRhs_le st.summary (balLists it.best).1 (balLists it.best).2.1 (balLists it.best).2.2
+                  (st.summary.drop (st.lhs + 1)) st.lhs (balOf (balLists it.best).1 (balLists it.best).2.1 (balLists it.best).2.2 st.lhs)
+                have hlen : (st.summary.drop (st.lhs + 1)).length = it.best.len - (st.lhs + 1) := by
+                  rw [p2]; simp
+                rw [p1] at hg'
+                unfold balTarget
+                rw [if_neg hz, hpe, if_pos (by simpa using hr)]
+                rw [balCand2_one st it' _ (by rw [p1]; exact p2) p3 (by unfold balRhs; exact hge)
+                  (by rw [p1]; unfold balRhs; omega), p1]
+        by_cases hacc : ((it'.try (fun _ x => f x) c mk).1 == Resp.accepted) = true
+        · rw [hacc]
+          simp only [Bool.or_true]
+          exact ⟨fun _ ha => absurd ha (by simp), fun _ _ ha => absurd ha (by simp)⟩
+        · have hacc' : ((it'.try (fun _ x => f x) c mk).1 == Resp.accepted) = false := by simpa using hacc
+          obtain ⟨q1, q2, q3⟩ := try_quiet it' (fun _ x => f x) c mk hacc'
+          rw [hacc']
+          simp only [Bool.or_false]
+          have hnextEq : balNext 1 (balLists it.best).1 (balLists it.best).2.1 (balLists it.best).2.2 st
+              (some (it'.try (fun _ x => f x) c mk).1) = balShift 1 st := by
+            cases hr : (it'.try (fun _ x => f x) c mk).1 with
+            | accepted => rw [hr] at hacc'; exact absurd hacc' (by decide)
+            | rejected => rfl
+            | skipped => rfl
+          refine ⟨?_, ?_⟩
+          · intro hnx ha _ _
+            obtain ⟨p1, p2, p3, p4⟩ := hP ha
+            have := shiftNone st p2 (by simpa [balDef, hnextEq] using hnx)
+            refine ⟨by rw [q1]; exact p1, fun j hj c' hc => ?_⟩
+            rcases Nat.lt_or_ge j st.lhs with hlt | hge
+            · exact q3 _ (p4 j hlt c' hc)
+            · have : j = st.lhs := by omega
+              subst this
+              rw [htarget ha] at hc
+              simp only [Option.some.injEq] at hc
+              subst hc
+              exact q2
+          · intro st' hnx ha
+            obtain ⟨p1, p2, p3, p4⟩ := hP ha
+            obtain ⟨s1, s2, s3⟩ := shiftP st st' it' p2 p3 (by simpa [balDef, hnextEq] using hnx)
+            refine ⟨by rw [q1]; exact p1, s1, s2, fun j hj c' hc => ?_⟩
+            rcases Nat.lt_or_ge j st.lhs with hlt | hge
+            · exact q3 _ (p4 j hlt c' hc)
+            · have : j = st.lhs := by omega
+              subst this
+              rw [htarget ha] at hc
+              simp only [Option.some.injEq] at hc
+              subst hc
+              exact q2)
+      (2 * it.best.len + 2) { summary := List.replicate it.best.len true, chunkStart := 0, lhs := 0 } it false
+      (fun _ => ⟨rfl, rfl, rfl, fun j hj => by simp only at hj; omega⟩)
+    obtain ⟨k1, k2⟩ := key hq hf he
+    exact ⟨k1, fun _ => k2⟩
+
+/-! ### the partner search in the property's words -/
+
+def addBal (a b : Int × Int × Int) : Int × Int × Int := (a.1 + b.1, a.2.1 + b.2.1, a.2.2 + b.2.2)
+
+def nonNeg (b : Int × Int × Int) : Bool := decide (0 ≤ b.1) && decide (0 ≤ b.2.1) && decide (0 ≤ b.2.2)
+
+/-- the running balance `bal + balance(rhs+1) + ... + balance(rhs+d)` -/
+def accFrom (curly square normal : List Int) (rhs : Nat) (bal : Int × Int × Int) : Nat → Int × Int × Int
+  | 0 => bal
+  | d + 1 => addBal (accFrom curly square normal rhs bal d) (balOf curly square normal (rhs + d + 1))
+
+theorem accFrom_shift (curly square normal : List Int) (rhs : Nat) (bal : Int × Int × Int) (d : Nat) :
+    accFrom curly square normal (rhs + 1) (addBal bal (balOf curly square normal (rhs + 1))) d
+      = accFrom curly square normal rhs bal (d + 1) := by
+  induction d with
+  | zero => rfl
+  | succ d ih =>
+    show addBal (accFrom curly square normal (rhs + 1) _ d) _ = addBal (accFrom curly square normal rhs bal (d + 1)) _
+    rw [ih]
+    have : rhs + 1 + d + 1 = rhs + (d + 1) + 1 := by omega
+    rw [this]
+
+/-- `d` is the first positive offset at which the running balance is zero, and it was neither zero
+nor negative in any kind before -/
+def FirstZero (curly square normal : List Int) (rhs : Nat) (bal : Int × Int × Int) (d : Nat) : Prop :=
+  1 ≤ d ∧ balZero (accFrom curly square normal rhs bal d) = true ∧
+  ∀ d', 1 ≤ d' → d' < d →
+    balZero (accFrom curly square normal rhs bal d') = false ∧ nonNeg (accFrom curly square normal rhs bal d') = true
+
+def isNeg (b : Int × Int × Int) : Bool := decide (b.1 < 0) || decide (b.2.1 < 0) || decide (b.2.2 < 0)
+
+theorem findRhs_cons_true (summary : List Bool) (curly square normal : List Int) (rest : List Bool) (rhs : Nat)
+    (bal : Int × Int × Int) :
+    findRhs summary curly square normal (true :: rest) rhs bal
+      = if isNeg (addBal bal (balOf curly square normal (rhs + 1))) then (rhs + 1, addBal bal (balOf curly square normal (rhs + 1)))
+        else if balZero (addBal bal (balOf curly square normal (rhs + 1))) then (rhs + 1, addBal bal (balOf curly square normal (rhs + 1)))
+        else findRhs summary curly square normal rest (rhs + 1) (addBal bal (balOf curly square normal (rhs + 1))) := by
+  rw [findRhs]
+  rfl
+
+/-- with every chunk surviving, the search returns a zero balance exactly when such a first zero
+exists among the next `m` atoms, and then it returns that atom -/
+theorem findRhs_spec (summary : List Bool) (curly square normal : List Int) (m rhs : Nat)
+    (bal : Int × Int × Int) :
+    (balZero (findRhs summary curly square normal (List.replicate m true) rhs bal).2 = true →
+      balZero bal = true ∨ ∃ d, d ≤ m ∧ FirstZero curly square normal rhs bal d ∧
+        (findRhs summary curly square normal (List.replicate m true) rhs bal).1 = rhs + d) ∧
+    (∀ d, d ≤ m → FirstZero curly square normal rhs bal d →
+      balZero (findRhs summary curly square normal (List.replicate m true) rhs bal).2 = true ∧
+      (findRhs summary curly square normal (List.replicate m true) rhs bal).1 = rhs + d) := by
+  induction m generalizing rhs bal with
+  | zero =>
+    simp only [List.replicate_zero, findRhs]
+    exact ⟨fun h => Or.inl h, fun d hd hfz => by have := hfz.1; omega⟩
+  | succ m ih =>
+    rw [List.replicate_succ, findRhs_cons_true]
+    have hacc1 : accFrom curly square normal rhs bal 1 = addBal bal (balOf curly square normal (rhs + 1)) := rfl
+    have hshift := accFrom_shift curly square normal rhs bal
+    generalize addBal bal (balOf curly square normal (rhs + 1)) = b' at *
+    by_cases hneg : isNeg b' = true
+    · rw [if_pos hneg]
+      have hparts : b'.1 < 0 ∨ b'.2.1 < 0 ∨ b'.2.2 < 0 := by
+        unfold isNeg at hneg
+        simp only [Bool.or_eq_true, decide_eq_true_eq] at hneg
+        omega
+      have hnz : balZero b' = false := by
+        unfold balZero
+        rcases hparts with h | h | h
+        · have : (b'.1 == 0) = false := by simp; omega
+          simp [this]
+        · have : (b'.2.1 == 0) = false := by simp; omega
+          simp [this]
+        · have : (b'.2.2 == 0) = false := by simp; omega
+          simp [this]
+      have hnn : nonNeg b' = false := by
+        unfold nonNeg
+        rcases hparts with h | h | h
+        · have : decide (0 ≤ b'.1) = false := by simp; omega
+          simp [this]
+        · have : decide (0 ≤ b'.2.1) = false := by simp; omega
+          simp [this]
+        · have : decide (0 ≤ b'.2.2) = false := by simp; omega
+          simp [this]
+      refine ⟨fun h => by rw [hnz] at h; exact absurd h (by simp), ?_⟩
+      intro d hd hfz
+      exfalso
+      rcases Nat.eq_or_lt_of_le hfz.1 with he | hlt
+      · subst he; have h21 := hfz.2.1; rw [hacc1, hnz] at h21; exact absurd h21 (by simp)
+      · have := (hfz.2.2 1 (Nat.le_refl 1) hlt).2
+        rw [hacc1, hnn] at this; exact absurd this (by simp)
+    · rw [if_neg hneg]
+      have hnn : nonNeg b' = true := by
+        unfold isNeg at hneg
+        simp only [Bool.or_eq_true, decide_eq_true_eq, not_or] at hneg
+        unfold nonNeg
+        simp only [Bool.and_eq_true, decide_eq_true_eq]
+        omega
+      by_cases hz' : balZero b' = true
+      · rw [if_pos hz']
+        refine ⟨fun _ => Or.inr ⟨1, by omega, ⟨Nat.le_refl 1, by rw [hacc1]; exact hz', fun d' h1 h2 => by omega⟩, rfl⟩, ?_⟩
+        intro d hd hfz
+        refine ⟨hz', ?_⟩
+        rcases Nat.eq_or_lt_of_le hfz.1 with he | hlt
+        · subst he; rfl
+        · have := (hfz.2.2 1 (Nat.le_refl 1) hlt).1
+          rw [hacc1, hz'] at this; exact absurd this (by simp)
+      · rw [if_neg hz']
+        have hz : balZero b' = false := by simpa using hz'
+        obtain ⟨i1, i2⟩ := ih (rhs + 1) b'
+        refine ⟨?_, ?_⟩
+        · intro h
+          rcases i1 h with hzz | ⟨d, hd, hfz, hr⟩
+          · rw [hz] at hzz; exact absurd hzz (by simp)
+          · refine Or.inr ⟨d + 1, by omega, ⟨by omega, by rw [← hshift]; exact hfz.2.1, ?_⟩, by rw [hr]; omega⟩
+            intro d' h1 h2
+            rcases Nat.eq_or_lt_of_le h1 with he | hlt
+            · subst he; rw [hacc1]; exact ⟨hz, hnn⟩
+            · have := hfz.2.2 (d' - 1) (by omega) (by omega)
+              rw [hshift, show d' - 1 + 1 = d' by omega] at this
+              exact this
+        · intro d hd hfz
+          rcases Nat.eq_or_lt_of_le hfz.1 with he | hlt
+          · subst he; have h21 := hfz.2.1; rw [hacc1, hz] at h21; exact absurd h21 (by simp)
+          · have hfz' : FirstZero curly square normal (rhs + 1) b' (d - 1) := by
+              refine ⟨by omega, by rw [hshift, show d - 1 + 1 = d by omega]; exact hfz.2.1, ?_⟩
+              intro d' h1 h2
+              have := hfz.2.2 (d' + 1) (by omega) (by omega)
+              rw [← hshift] at this
+              exact this
+            obtain ⟨r1, r2⟩ := i2 (d - 1) (by omega) hfz'
+            exact ⟨r1, by rw [r2]; omega⟩
+
+/-- **What `partnerOf` finds.**  For an unbalanced atom `j`, the search reports a partner exactly
+when there is a first later atom `j + d` at which the running balance of all three bracket kinds
+is back to zero without any kind having been negative (or all of them zero) in between — and it
+reports that atom. -/
+theorem partnerOf_spec (t : Testcase) (j : Nat) (hj : j < t.len)
+    (hz : balZero (balOf (balLists t).1 (balLists t).2.1 (balLists t).2.2 j) = false) :
+    (balZero (partnerOf t j).2 = true →
+      ∃ d, j + d < t.len ∧ (partnerOf t j).1 = j + d ∧
+        FirstZero (balLists t).1 (balLists t).2.1 (balLists t).2.2 j (balOf (balLists t).1 (balLists t).2.1 (balLists t).2.2 j) d) ∧
+    (∀ d, j + d < t.len →
+      FirstZero (balLists t).1 (balLists t).2.1 (balLists t).2.2 j (balOf (balLists t).1 (balLists t).2.1 (balLists t).2.2 j) d →
+      balZero (partnerOf t j).2 = true ∧ (partnerOf t j).1 = j + d) := by
+  have hdrop : (List.replicate t.len true).drop (j + 1) = List.replicate (t.len - (j + 1)) true := by simp
+  unfold partnerOf
+  rw [hdrop]
+  obtain ⟨s1, s2⟩ := findRhs_spec (List.replicate t.len true) (balLists t).1 (balLists t).2.1 (balLists t).2.2
+    (t.len - (j + 1)) j (balOf (balLists t).1 (balLists t).2.1 (balLists t).2.2 j)
+  refine ⟨?_, ?_⟩
+  · intro h
+    rcases s1 h with hzz | ⟨d, hd, hfz, hr⟩
+    · rw [hz] at hzz; exact absurd hzz (by simp)
+    · exact ⟨d, by omega, hr, hfz⟩
+  · intro d hd hfz
+    exact s2 d (by omega) hfz
+
 end Strat
